@@ -93,7 +93,7 @@ def fuzz_cases(o, ctx, target, tier, seed):
     if not _FUZZ_BUILT["ok"]:
         notes[target] = "not run: " + _FUZZ_BUILT["msg"]
         return []
-    secs = 6 if tier != "thorough" else 90
+    secs = 90 if tier == "thorough" else 25 if tier == "search" else 6
     try:
         base, fresh, note = fuzzgen.lines(target, secs, seed)
     except Exception as e:  # noqa
